@@ -18,6 +18,9 @@ let variant = if Array.length Sys.argv > 1 then Sys.argv.(1) else "pp"   (* "pp"
 let fb = String.length variant = 2 && variant.[0] = 'f'
 let fc = String.length variant = 2 && variant.[1] = 'f'
 let write_offset f old off = Codec.write_offset_var fb fc f old off
+(* argv[2] = "c": the (Mem, Imm) form of the x86 ALU group refuses a qword destination with a non-int32 immediate
+   (fixes/C17-x86-arith-mem-imm64.patch); "u": the pinned code without the test *)
+let mem_checked = Array.length Sys.argv > 2 && Sys.argv.(2) = "c"
 
 let nlist = [2; 7; 8; 9; 12; 14; 16; 19; 21; 24; 25; 26; 31; 32; 33; 48; 63; 64]
 let two64 = Z.shift_left Z.one 64
@@ -87,6 +90,24 @@ let () =
         (match Codec.encode_bitfield k (cz_of_int size) (cz_of_string a) (cz_of_string b) with
          | Some (r, s) -> Printf.printf "X 1 %s %s %s %s\n" x x (string_of_cz r) (string_of_cz s)
          | None -> print_endline "X 0 0 0 0 0")
+      | "Y" :: op :: form :: size :: acc :: optsize :: longform :: imm :: _ ->
+        let b s = s = "1" in
+        let r = if form = "0" then Codec.arith_reg_imm (cz_of_string op) (cz_of_string size) (b acc) (b optsize) (b longform) (cz_of_string imm)
+                else Codec.arith_mem_imm mem_checked (cz_of_string op) (cz_of_string size) (b longform) (cz_of_string imm) in
+        (match r with
+         | Some e ->
+           let osz = Z.to_int (z_of_cz e.Codec.ae_opsize) in
+           Printf.printf "Y 1 %d %d %d %s %s %s\n" (if osz = 2 then 1 else 0) (if osz = 8 then 1 else 0) (if e.Codec.ae_short then 1 else 0)
+             (string_of_cz e.Codec.ae_opc) (string_of_cz e.Codec.ae_immsize) (string_of_cz e.Codec.ae_field)
+         | None -> print_endline "Y 0 0 0 0 0 0 0")
+      | "Z" :: kind :: size :: immr :: imms :: dst :: src :: _ ->
+        (* the Coq transcription of the ARM ARM pseudo-code (BfmSemModel), for cross-validation with the python one *)
+        let sz = cz_of_string size and r = cz_of_string immr and s_ = cz_of_string imms in
+        let v = match kind with
+          | "u" -> Codec.ubfm_pc sz r s_ (cz_of_string src)
+          | "s" -> Codec.sbfm_pc sz r s_ (cz_of_string src)
+          | _ -> Codec.bfm_pc sz r s_ (cz_of_string dst) (cz_of_string src) in
+        (match v with Some x -> Printf.printf "Z %s\n" (string_of_cz x) | None -> print_endline "Z -")
       | "E" :: w :: off :: nb :: _ ->
         (* the C++ argument is int32_t(off) / int64_t(off): reduce to the type first *)
         let wi = int_of_string w in
